@@ -24,3 +24,21 @@ info('C20',
       'PickleStorage/Hdf5Storage file mapping: bounded only'],
      ['sorted() returns a stable permutation (assumed contract)', 'dict.keys() enumerates exactly the key set (assumed)',
       'callbacks are opaque: calling one is logged in a ghost call log and returns apply(callback, extra_kwargs)'])
+
+info('C14',
+     'P: (1) suzuki_trotter_decomposition + suzuki_trotter_time_steps: for every order in {1,2,4,"4_opt"} and every N_steps >= 0 '
+     'the step weights sum to exactly N_steps on both bond parities (list repetition by a symbolic count handled as segment list). '
+     '(2) accounting: run_evolution of TEBDEngine, RandomUnitaryEvolution, ExpMPOEvolution, TwoSiteTDVPEngine and the '
+     'time-dependent drivers (TimeDependentTEBD/ExpMPO/TwoSiteTDVP) verified from the real source, with the leaf updates '
+     '(evolve_step, sweep, prepare_evolve) abstract and a ghost accumulator `performed`: '
+     'trunc_err.eps == old + performed and evolved_time == old + N_steps*dt for every N_steps; a static frame obligation '
+     '(AST scan) shows no other function assigns self.trunc_err/self.evolved_time. TruncationError.__add__/copy/from_norm. '
+     'B (bounded, not proof): engines against exact diagonalisation on 6 sites (order of convergence, charge, norm, energy, '
+     'evolved_time for split runs, trunc_err accounting with real truncations).',
+     ['exp(-iHt) numerics, order of convergence, norm/energy conservation: bounded only',
+      'complex (imaginary-time) dt: dt is modelled as a real number in the deductive part',
+      'QR-based TEBD, single-site TDVP and purification engines: accounting bounded/inherited only'],
+     ['leaf updates (evolve_step/update_bond/sweep) are abstract: they return some TruncationError and do not assign '
+      'self.trunc_err/self.evolved_time (the latter is checked syntactically on every run)',
+      'lemma sum(xs*n) == n*sum(xs) for list repetition is built into seg_weight',
+      'consistency_check(max_trunc_err) assumed not to raise'])
